@@ -61,6 +61,51 @@ MUTATIONS: dict[str, tuple[str, str, str, str]] = {
     "lin-products-not-duplicated": (LIN, "            prods = _stoichiometry_to_duplicate_list(prods)\n", "            prods = list(prods)\n", "only the substrate side is expanded by its coefficients"),
     "lin-duplicates-capped-at-two": (LIN, "        long_form.extend([k] * v)\n", "        long_form.extend([k] * min(v, 2))\n", "a coefficient 3 gives two copies"),
 }
+# ---- state of the LabelMapper OBJECT across build_model calls (closing pass for seeded C05-9); several edits per mutation ----
+# name -> (file, [(old, new), ...], what)
+MULTI: dict[str, tuple[str, list[tuple[str, str]], str]] = {
+    "build-consumes-maps": (
+        ISO,
+        [
+            ("        for rxn_name, rxn in self.model.get_raw_reactions().items():\n            if (label_map := self.label_maps.get(rxn_name)) is None:\n",
+             "        open_maps = self.label_maps\n        for rxn_name, rxn in self.model.get_raw_reactions().items():\n            if (label_map := open_maps.pop(rxn_name, None)) is None:\n"),
+        ],
+        "the reaction loop pops the maps from the mapper's own dict (seeded C05-9 without the log line): later builds find no maps",
+    ),
+    "build-pops-initial-labels": (
+        ISO,
+        [("                label_pos = initial_labels.get(k)\n", "                label_pos = initial_labels.pop(k, None)\n")],
+        "build_model consumes the caller's initial_labels dict: the same dict handed to a second call places no label",
+    ),
+    "build-drops-refused-map": (
+        ISO,
+        [
+            ("            else:\n                _create_isotopomer_reactions(\n                    model=m,\n",
+             "            else:\n                if len(label_map) < sum(self.label_variables.get(k, 0) * -int(v) for k, v in rxn.stoichiometry.items() if v < 0):\n"
+             "                    del self.label_maps[rxn_name]  # 'unusable map'\n"
+             "                _create_isotopomer_reactions(\n                    model=m,\n"),
+        ],
+        "a map that is too short is removed from the mapper before the call is refused: the next build treats the reaction as unmapped and succeeds",
+    ),
+    # seeded C05-3 re-based onto the per-occurrence form (its patch.diff was written against the dict form, pre-1a03052)
+    "repl-substrates-only": (
+        ISO,
+        [("            base_substrates + base_products,\n            new_substrates + new_products,\n            strict=True,\n",
+          "            base_substrates,\n            new_substrates,\n            strict=True,\n")],
+        "the renaming pools are filled from the substrates only: a reaction's own labelled product in the rate (reversible law) is read through its total",
+    ),
+    "build-caches-initial-variables": (
+        ISO,
+        [
+            ("        variables: dict[str, float] = {}\n        for k, v in self.model.get_initial_conditions().items():\n",
+             "        variables = next((v for o, v in _VARIABLES_CACHE if o is self), None)\n        if variables is None:\n            variables = {}\n"
+             "            _VARIABLES_CACHE.append((self, variables))\n        for k, v in self.model.get_initial_conditions().items():\n"
+             "            if k in variables or any(n.startswith(k + '__') for n in variables):\n                continue\n"),
+            ("def _total_concentration(", "_VARIABLES_CACHE: list = []\n\n\ndef _total_concentration("),
+        ],
+        "the dict of initial amounts is cached per mapper and only completed: later builds keep the label placement of the first",
+    ),
+}
 REVERSALS = {"revert-fix-zero-label": FIX_ZERO, "revert-fix-direction": FIX_DIR}
 
 
@@ -75,6 +120,8 @@ def main() -> int:
     if name == "list":
         for k, v in MUTATIONS.items():
             print(k, "--", v[3])
+        for k, v in MULTI.items():
+            print(k, "--", v[2])
         for k in REVERSALS:
             print(k)
         return 0
@@ -86,6 +133,17 @@ def main() -> int:
         return 0
     if name in REVERSALS:
         assert patch(REVERSALS[name], reverse=True), "fix not present?"
+        return 0
+    if name in MULTI:
+        file, edits, _ = MULTI[name]
+        p = pathlib.Path(file)
+        s = p.read_text()
+        for old, new in edits:
+            if s.count(old) != 1:
+                print(f"anchor of mutation {name} found {s.count(old)} times: {old[:60]!r}", file=sys.stderr)
+                return 2
+            s = s.replace(old, new)
+        p.write_text(s)
         return 0
     file, old, new, _ = MUTATIONS[name]
     p = pathlib.Path(file)
